@@ -79,6 +79,10 @@ func NewBiomesPaletteContainer(length int, defaultValue BiomesState) *PaletteCon
 func NewBiomesPaletteContainerWithData(length int, data []uint64, pat []BiomesState) *PaletteContainer[BiomesState] {
 	var p palette[BiomesState]
 	n := calcBitsPerValue(length, len(data))
+	// 64 three-bit ids take as many longs as 64 four-bit ids: the palette length decides
+	if n > 3 && len(pat) > 0 && len(pat) <= 1<<3 && calcBitStorageSize(3, length) == len(data) {
+		n = 3
+	}
 	switch n {
 	case 0:
 		p = &singleValuePalette[BiomesState]{pat[0]}
@@ -94,7 +98,7 @@ func NewBiomesPaletteContainerWithData(length int, data []uint64, pat []BiomesSt
 		bits:    n,
 		config:  biomesCfg{},
 		palette: p,
-		data:    NewBitStorage(n, length, data),
+		data:    NewBitStorage(biomesCfg{}.bits(n), length, data),
 	}
 }
 
